@@ -1,4 +1,4 @@
-\* quick: sequences of <= 3 of 25 operator kinds; inline image data <= 4 over {E,I,SP,LF,CR,x};
+\* quick: sequences of <= 3 of 22 operator kinds (5 of them comments; thorough: 25); inline image data <= 4 over {E,I,SP,LF,CR,x};
 \* Builder call sequences <= 5 over 22 call classes (version >= 2.0)
 INIT GenInit
 NEXT GenNext
@@ -7,7 +7,7 @@ CONSTANTS
   NilDictIsNull = TRUE
   WriterAddsLength = TRUE
   WriterEscapesKeys = TRUE
-  OpKinds = {"q", "cm", "w", "Tf", "Tj", "TJ", "'", "dq", "BDC", "B", "B*", "BT", "d", "sc", "unk", "img", "imgE", "cReg", "cSP", "cFF", "cNUL", "cCR", "cLF", "cEmpty", "cMix"}
+  OpKinds = {"q", "cm", "w", "Tf", "Tj", "TJ", "'", "dq", "BDC", "B", "B*", "BT", "d", "sc", "unk", "img", "imgE", "cReg", "cSP", "cNUL", "cCR", "cMix"}
   MaxOps = 3
   DataAlphabet = {69, 73, 32, 10, 13, 120}
   MaxData = 4
